@@ -678,6 +678,8 @@ var _ *openfgav1.Userset
 //@ func (*WeightedAuthorizationModelGraphBuilder).Build
 //@   props C10 C05 C13
 //@   readonly_model
+//@   -- C13 "the result of a call depends only on its arguments": Build keeps no state in the builder it is called on
+//@   readonly_receiver
 //@   requires wf_oneofs: forall u *openfgav1.Userset :: wfUserset(u)
 //@   ensures error_is_sentinel: err != nil ==> wraps(err, ErrModelCycle) || wraps(err, ErrTupleCycle) || wraps(err, ErrInvalidModel)
 //@   ensures graph_iff_accepted: (err == nil) <==> (result0 != nil)
